@@ -13,7 +13,8 @@ RULE = ("records: 0-40 tuples / namedtuples / dicts (by value path) of None, boo
         "fields (known / unknown / None values, MISSING entry) in all four modifiers, header/footer absent / short / "
         "longer than the table, limits None or (n, m) incl. zeros via fmt or limits=, skip_columns. Non-trivial = a cell "
         "was truncated, or limits applied, or a column of width <= 2, or break lines, or an enum column; distinct by "
-        "case hash.")
+        "case hash."
+        " Also: the same row object at several positions; width exchange between columns after a print; stale (n) width annotations; limits with one None; sql-like field names; str-subclass cell values; a user-defined centred field type.")
 ASSUMPTIONS = [
     "width = number of characters (no East-Asian wide / combining characters); no newlines or control chars in values",
     "alignment inside a cell is not judged (any left/right/centre padding accepted)",
